@@ -256,6 +256,30 @@ def describe(recs):
     return " ".join(s)
 
 
+def strip_for_l2(hists):
+    """Histories Auditd.Read can be driven with: cleanup calls and ticks removed (its ticker is one minute)."""
+    out, seen = [], set()
+    for h in hists:
+        g = [c for c in h if c["k"] not in ("cleanS", "cleanL", "tick")]
+        k = json.dumps(g, sort_keys=True)
+        if g and k not in seen:
+            seen.add(k)
+            out.append(g)
+    return out
+
+
+def replay_l2(ctx, hists, name):
+    binp = ctx.go_build("./cmd/auditdl2")
+    hp = ctx.path("hists-%s.jsonl" % name)
+    tp = ctx.path("trace-%s.ndjson" % name)
+    write_hists(hp, hists)
+    p = ctx.run([binp, "-in", hp, "-out", tp, "-seed", str(ctx.seed)], timeout=1800)
+    return tp, json.loads(p.stdout.strip().splitlines()[-1])
+
+
+L2_PROPS = ("C01", "C02", "C04", "C09", "C14")
+
+
 def run_family(ctx, prop):
     conf = CONF[prop]
     mons = MON[prop]
@@ -279,6 +303,23 @@ def run_family(ctx, prop):
     # 4. validation
     bad, div, done = validate(ctx, allh, "main")
     nself = selftest(ctx, allh, mons)
+    # 3b/4b. the same histories through the real Auditd.Read (parser, reassembler, coalescer, call-back): L2
+    l2stats, l2n = None, 0
+    if prop in L2_PROPS:
+        l2h = strip_for_l2(edge[: (6000 if ctx.quick else 10 ** 9)] + simh)
+        t3, l2stats = replay_l2(ctx, l2h, "l2")
+        hs3 = split_trace(t3)
+        base = len(allh)
+        for i, hh in enumerate(hs3):
+            r = json.loads(hh[0])
+            r["h"] = base + i
+            hh[0] = json.dumps(r, separators=(",", ":")) + "\n"
+        bad3, _, done3 = validate(ctx, hs3, "l2", cfg="TrackerTraceL2.cfg")
+        bad += bad3
+        allh = allh + hs3
+        l2n = len(hs3)
+        for k in ("lines", "tlc_states"):
+            done[k] += done3[k]
     # verdicts
     mine = [b for b in bad if b[2] in mons]
     other = sorted({b[2] for b in bad if b[2] not in mons})
@@ -288,9 +329,10 @@ def run_family(ctx, prop):
     for what, idxs in byprop.items():
         idxs = sorted(set(idxs), key=lambda i: len(allh[i]))
         recs = hist_of(allh[idxs[0]])
-        ctx.violation(what, "%s violated on the real sessionTracker in %d recorded histories; shortest: %s"
-                      % (what, len(idxs), describe(recs)),
-                      {"kind": "l1-history", "monitor": what, "history": [
+        level = "Auditd.Read (L2: real parser/reassembler)" if idxs[0] >= len(hs) + len(hs2) else "sessionTracker API (L1)"
+        ctx.violation(what, "%s violated on the real code at %s in %d recorded histories; shortest: %s"
+                      % (what, level, len(idxs), describe(recs)),
+                      {"kind": "history", "level": level, "monitor": what, "history": [
                           {k: v for k, v in r.items() if k not in ("outs", "st", "err", "errs", "mut")}
                           for r in recs[1:]], "observed": recs[1:]})
     if other:
@@ -306,7 +348,9 @@ def run_family(ctx, prop):
         "traces_validated_against_impl": len(allh),
         "samples": [describe(hist_of(allh[i])) for i in (0, len(hs) // 2, len(hs) - 1, len(allh) - 1)][:4],
         "edge_cover_histories": len(hs), "edge_cover_shapes": ex["distinct"],
-        "simulated_histories": len(hs2), "calls_replayed": s1["calls"] + s2["calls"],
+        "simulated_histories": len(hs2), "l2_histories_through_Auditd_Read": l2n,
+        "l2_audit_log_lines": (l2stats or {}).get("lines", 0),
+        "calls_replayed": s1["calls"] + s2["calls"] + (l2stats or {}).get("calls", 0),
         "events_emitted_by_impl": s1["outs"] + s2["outs"],
         "histories_with_emissions": nontriv,
         "trace_lines_validated": done["lines"], "trace_validation_tlc_states": done["tlc_states"],
